@@ -255,6 +255,22 @@ theorem flat_stale_ok (tid : Nat) (op : ApiOp) (htid : tid < nThreads) (hf : fla
     refine ⟨fun st => ?_, fun s1 => ?_⟩
     · simp only [pre, boxAssign]; staleauto
     · simp only [post, boxAssign]; staleauto
+  case gNew d tag inl val cap =>
+    have e1 : ¬ 16 + 2 * tid = d := by omega
+    have e2 : ¬ 16 + 2 * tid + 1 = d := by omega
+    have e3 : ¬ d = 16 + 2 * tid := by omega
+    have e4 : ¬ d = 16 + 2 * tid + 1 := by omega
+    refine ⟨fun st => ?_, fun s1 => ?_⟩
+    · simp only [pre, boxAssign]; staleauto
+    · simp only [post, boxAssign]; staleauto
+  case gEdit d skip nv =>
+    have e1 : ¬ 16 + 2 * tid = d := by omega
+    have e2 : ¬ 16 + 2 * tid + 1 = d := by omega
+    have e3 : ¬ d = 16 + 2 * tid := by omega
+    have e4 : ¬ d = 16 + 2 * tid + 1 := by omega
+    refine ⟨fun st => ?_, fun s1 => ?_⟩
+    · simp only [pre, boxAssign]; staleauto
+    · simp only [post, boxAssign]; staleauto
   case vClear d =>
     have e1 : ¬ 16 + 2 * tid = d := by omega
     have e2 : ¬ 16 + 2 * tid + 1 = d := by omega
